@@ -45,7 +45,7 @@ macro_rules! hue_monitors {
                 "every f32 angle |x|<=2^20 (bit pattern) -> normal form; oracle: exact residue mod 360 in f64; \
                  distinct = (hue type, form, sign, exponent, top-6 mantissa bits) cells",
             );
-            mon.tolerance = Some("range excess <= 2 ulp, congruence <= 2 ulp, ulp = max(ulp x, ulp 360)".into());
+            mon.tolerance = Some("range excess <= 2 ulp of max(ulp x, ulp 360); congruence <= 2 ulp of max(ulp x, ulp result)".into());
             let top: u32 = 0x49800000; // 2^20
             let full = !ctx.quick();
             let replay = ctx.replay_input(&mname, hname);
@@ -63,7 +63,9 @@ macro_rules! hue_monitors {
                     let congr = circ(yf - xf);
                     l.evals += 1;
                     let e = excess / u;
-                    let c = congr / u;
+                    // congruent "to within the rounding error of the stored angle": the unit is the grid of the input or of the
+                    // result, whichever is coarser (a small angle must come back exactly; -1e-5 can only come back as 360)
+                    let c = congr / ulp32(x).max(ulp32(y));
                     if !(e <= l.max_excess_ulps) {
                         l.max_excess_ulps = e;
                         l.arg_excess = bits;
@@ -198,8 +200,8 @@ macro_rules! hue_monitors {
                 let es = (s.abs() - 180.0).max(0.0) / u;
                 let ep = (-p).max(p - 360.0).max(0.0) / u;
                 // congruence: s - x is not always exact in f64; use an error-free difference
-                let cs = circ_f64_diff(s, x) / u;
-                let cp = circ_f64_diff(p, x) / u;
+                let cs = circ_f64_diff(s, x) / ulp64(x).max(ulp64(s));
+                let cp = circ_f64_diff(p, x) / ulp64(x).max(ulp64(p));
                 m.evals(2);
                 let worst = es.max(ep).max(cs).max(cp);
                 m.dev(worst, || json!({"x": x, "signed": s, "unsigned": p, "hue": hname}));
